@@ -240,21 +240,62 @@ impl<'a> ValidationContext<'a> {
 impl UnstableBlocks {
     #[verifier::external_body]
     fn has_next_block_header(&self, block_header: &Header) -> (r: bool) { unimplemented!() }
-    // [trusted:assumed-contract] UnstableBlocks::insert_next_block_header (unstable_blocks.rs:221; find_mut returns `&mut`, outside Verus):
-    // touches only the announced headers
+    // [trusted:assumed-contract] UnstableBlocks::block_depth (unstable_blocks.rs:212; `find_mut` returns `&mut`, outside Verus — it only
+    // reads): the number of edges from the anchor to the block, an error iff the block is not in the tree
     #[verifier::external_body]
-    fn insert_next_block_header(&mut self, block_header: Header, stable_height: Height) -> (r: Result<(), BlockDoesNotExtendTree>)
+    fn block_depth(&mut self, block_hash: &BlockHash) -> (r: Result<u32, BlockDoesNotExtendTree>)
         ensures
-            final(self).tree == old(self).tree, final(self).stability_threshold == old(self).stability_threshold, final(self).network == old(self).network,
-            final(self).outpoints_cache == old(self).outpoints_cache, final(self).tip_depths_cache == old(self).tip_depths_cache,
-            final(self).next_block_headers.offered@ == old(self).next_block_headers.offered@,
+            *final(self) == *old(self),
+            r.is_ok() <==> old(self).tree.contains(*block_hash),
+            r matches Ok(d) ==> d == old(self).tree.idx_path_to(*block_hash).len(),
     { unimplemented!() }
+// C14: the height recorded for an announced header is its parent's height + 1, the parent being an announced header or a block of
+// the tree (whose height is the stable height plus its distance from the anchor); unconnected headers are refused and change nothing
+//@extract file=canister/src/unstable_blocks.rs in="impl UnstableBlocks" item="fn insert_next_block_header" props=C14
+//@ ret r
+//@ spec
+//@| requires
+//@|     // [assumption, stated] heights stay far below 2^32
+//@|     stable_height as int + old(self).tree.sdepth() + 0x10_0000 < u32::MAX,
+//@|     old(self).next_block_headers.heights_below(u32::MAX - 1),
+//@|     old(self).tree.wf_depth(),
+//@| ensures
+//@|     // the new height is at most one above the greatest height known before (announced or in the tree)
+//@|     forall|b: int| old(self).next_block_headers.heights_below(b) && stable_height + old(self).tree.sdepth() <= b ==> final(self).next_block_headers.heights_below(b + 1),
+//@|     final(self).tree == old(self).tree, final(self).stability_threshold == old(self).stability_threshold, final(self).network == old(self).network,
+//@|     final(self).outpoints_cache == old(self).outpoints_cache, final(self).tip_depths_cache == old(self).tip_depths_cache,
+//@|     final(self).next_block_headers.offered@ == old(self).next_block_headers.offered@,
+//@|     ({
+//@|         let parent = BlockHash(block_header.prev_blockhash.0);
+//@|         let announced = old(self).next_block_headers.height_of_spec(parent);
+//@|         &&& r.is_err() <==> (announced is None && !old(self).tree.contains(parent))
+//@|         &&& r.is_err() ==> final(self).next_block_headers.announced@ == old(self).next_block_headers.announced@
+//@|         &&& r.is_ok() ==> final(self).next_block_headers.announced@ == old(self).next_block_headers.announced@.push((block_header,
+//@|                 ((match announced { Some(p) => p as int, None => stable_height + old(self).tree.idx_path_to(parent).len() }) + 1) as Height))
+//@|     }),
+//@ before "stable_height + depth"
+//@| proof { old(self).tree.lemma_idx_path_len_le_depth(prev_block_hash); }
+//@end
 }
+// ghost bookkeeping only: one more batch of announced headers has been offered (no run-time counterpart)
+#[verifier::external_body]
+fn vp_note_offered(n: &mut NextBlockHeaders)
+    ensures
+        final(n).offered@ == old(n).offered@ + 1, final(n).announced@ == old(n).announced@,
+        forall|h: BlockHash| final(n).height_of_spec(h) == old(n).height_of_spec(h),
+        final(n).max_height_spec() == old(n).max_height_spec(),
+{ }
 //@extract file=canister/src/state.rs item="fn insert_next_block_headers" props=C10,C13
 //@ rewrite R4 "for block_header_blob in next_block_headers\.iter\(\) \{" => "let mut vp_i: usize = 0;\n    while vp_i < next_block_headers.len() {\n        let block_header_blob = &next_block_headers[vp_i];\n        vp_i = vp_i + 1;"
 //@ rewrite R10 "let validation_result =\s*(ValidationContext::new_with_next_block_headers\(state, &block_header\))\s*\.map_err\(\|e\| vp_format\(\)\)\s*\.and_then\(\|store\| \{(.*?)\n                \}\);" => "let validation_result: Result<(), String> = match \1 { Err(e) => Err(vp_format()), Ok(store) => {\2\n                } };"
 //@ rewrite R10 "\.validate_header\(&block_header, duration_since_epoch\(\)\)\s*\.map_err\(\|e\| vp_format\(\)\)" => ".validate_header(&block_header, duration_since_epoch()).map_err(|e: ValidateHeaderError| -> (vp_s: String) { vp_format() })"
 //@ spec
+//@| requires
+//@|     // [assumption, stated] heights (stable, unstable, announced) stay below 2^31 - 2^16 and a response announces fewer than 2^16 headers
+//@|     old(state).unstable_blocks.tree.wf_depth(),
+//@|     old(state).utxos.next_height as int + old(state).unstable_blocks.tree.sdepth() <= 0x7fff_0000,
+//@|     old(state).unstable_blocks.next_block_headers.heights_below(0x7fff_0000),
+//@|     next_block_headers@.len() < 0x1_0000,
 //@| ensures
 //@|     // only the announced headers inside unstable_blocks are touched: never the tree, the UTXO set, the header store or the syncing state
 //@|     final(state).unstable_blocks.tree == old(state).unstable_blocks.tree,
@@ -263,10 +304,14 @@ impl UnstableBlocks {
 //@|     final(state).syncing_state == old(state).syncing_state,
 //@|     final(state).unstable_blocks.next_block_headers.offered@ == old(state).unstable_blocks.next_block_headers.offered@ + 1,
 //@ start
-//@| state.unstable_blocks.next_block_headers.offered = Ghost(state.unstable_blocks.next_block_headers.offered@ + 1);
+//@| vp_note_offered(&mut state.unstable_blocks.next_block_headers);
 //@ loop 1
 //@| invariant
 //@|     vp_i <= next_block_headers@.len(),
+//@|     next_block_headers@.len() < 0x1_0000,
+//@|     state.unstable_blocks.tree.wf_depth(),
+//@|     state.utxos.next_height as int + state.unstable_blocks.tree.sdepth() <= 0x7fff_0000,
+//@|     state.unstable_blocks.next_block_headers.heights_below(0x7fff_0000 + vp_i),
 //@|     state.unstable_blocks.tree == old(state).unstable_blocks.tree,
 //@|     state.utxos == old(state).utxos,
 //@|     state.stable_block_headers == old(state).stable_block_headers,
@@ -284,6 +329,9 @@ impl UnstableBlocks {
 //@| requires
 //@|     old(state).syncing_state.num_block_deserialize_errors < u64::MAX,
 //@|     old(state).syncing_state.num_insert_block_errors < u64::MAX,
+//@|     // [assumption, stated] heights stay below 2^31 - 2^17; a reply carries fewer than 2^15 blocks and announces fewer than 2^16 headers
+//@|     heights_in_range(old(state), 0),
+//@|     old(state).syncing_state.response_to_process matches Some(ResponseToProcess::Complete(vp_r)) ==> vp_r.blocks@.len() < 0x8000 && vp_r.next@.len() < 0x1_0000,
 //@| ensures
 //@|     // a reply that is not complete is put back untouched (so a follow-up still conforms) and nothing changes at all
 //@|     !(old(state).syncing_state.response_to_process matches Some(ResponseToProcess::Complete(_))) ==> *final(state) == *old(state),
@@ -318,6 +366,8 @@ impl UnstableBlocks {
 //@|     old(state).syncing_state.response_to_process matches Some(ResponseToProcess::Complete(_)),
 //@|     old(state).syncing_state.num_block_deserialize_errors < u64::MAX,
 //@|     old(state).syncing_state.num_insert_block_errors < u64::MAX,
+//@|     heights_in_range(state, it.index@ as int),
+//@|     it.index@ <= response.blocks@.len(), response.blocks@.len() < 0x8000, response.next@.len() < 0x1_0000,
 //@end
 
 // ---- C13: the phase order of one heartbeat (heartbeat.rs:20): ingestion first; fetching only if ingestion had nothing to do;
